@@ -113,6 +113,11 @@ def check(run, only=None):
         run, "C06", v, keep=lambda s: any(o["op"] == "race" and o["a"]["op"] in ("close", "send") for o in s["ops"]), tag="gone")
     validated += rval
     tstates += rts
+    # "no sequence of calls makes it panic" includes calls that overlap: concurrent histories on one pool, judged by Lin.tla
+    from checks import c20
+    conc = c20.store_histories(run, "C06", v, 45 if run.tier != "thorough" else 600, only="pool")
+    validated += conc["validated"]
+    tstates += conc["trace_spec_states"]
     rc = v.finish()
     vlib.write_evidence(run, {
         "traces_validated_against_impl": validated,
@@ -122,6 +127,7 @@ def check(run, only=None):
                 "plus %d seeded random 40-call histories on ranges of 1-6 ids and %d long histories on 0/1..65535; "
                 "distinct = distinct call sequences; each is non-trivial (>= 5 calls)" % (plans, nrand, big),
         "events_validated": nev,
+        "under_concurrent_use": conc,
         "writer_level": {"delivery_scripts": len(wscns), "events": wnev, "rejections": len(wrej),
                          "rule": "TLC-generated QoS 1/2 delivery scripts with deadline expiries on a real node; BrokerTrace: identifiers held by the pool = identifiers of live outbound flows at every probe"},
         "vanishing_recipients": {"interleavings": rn, "parked_at_their_gate": rparked, "events": rnev, "rejections": rrej},
@@ -138,6 +144,18 @@ def check(run, only=None):
 
 def replay(run, path):
     rp = json.load(open(path))
+    if rp.get("kind") == "history":
+        tp = os.path.join(run.scratch, "h.ndjson")
+        with open(tp, "w") as f:
+            f.write(json.dumps(rp["history"]) + "\n")
+        ok, line, detail, _ = run.validate("Lin", "Lin.cfg", tp)
+        print("replay: recorded history is %s" % ("linearizable" if ok else "NOT linearizable"))
+        if not ok:
+            print("VIOLATION property=C06 replay=%s" % path)
+        return 0 if ok else 1
+    if rp.get("kind") in ("datarace", "fatal"):
+        print("replay: data races depend on the schedule; re-running the check")
+        return check(run)
     if rp.get("kind") == "race":
         return racelib.replay(run, "C06", path)
     if rp.get("kind") == "broker":
